@@ -429,7 +429,7 @@ func typeName(t types.Type) string {
 
 // Pos renders a position relative to the repo dir.
 func (p *Prog) Pos(pos token.Pos) string {
-	if !pos.IsValid() {
+	if !pos.IsValid() || p.Fset == nil {
 		return "-"
 	}
 	ps := p.Fset.Position(pos)
